@@ -96,16 +96,21 @@ KINDS = {
     'head':     ('HEAD', '/ok', [('/ok', ['ret', 200])]),
     'read':     ('GET', '/_stats/', [('/_stats/', ['ret', 200])]),
     'reset':    ('POST', '/_stats/reset', [('/_stats/reset', ['ret', 200])]),
+    # not a request: the operator resizes every per-route sample store to a small capacity, so that stores
+    # hold fewer samples than they have counted (as after 16384 hits with the default capacity)
+    'shrink':   (None, None, []),
 }
 
 
 def gen_stats_case(rng, tier):
     n = rng.choice([4, 10, 25] if tier == 'quick' else [10, 40, 100])
-    kinds = [k for k in KINDS if k not in ('read', 'reset')]
+    kinds = [k for k in KINDS if k not in ('read', 'reset', 'shrink')]
     ops = []
     for _ in range(n):
         x = rng.random()
-        if x < 0.12:
+        if x < 0.07:
+            ops.append('shrink')
+        elif x < 0.17:
             ops.append('read')
         elif x < 0.2:
             ops.append('reset')
@@ -119,6 +124,9 @@ def stats_model_ops(case):
     """the model's operation list and, per harness op, the index of the model state to observe"""
     mops, marks = [], []
     for k in case['ops']:
+        if k == 'shrink':
+            marks.append(None)            # resizing the sample stores is not an operation of the counting model: counts are unaffected
+            continue
         if k == 'reset':
             mops.append(['reset'])
         for pat, oc in KINDS[k][2]:
@@ -188,6 +196,12 @@ def impl_stats(case):
     obs = []
     for k in case['ops']:
         method, path, _ = KINDS[k]
+        if k == 'shrink':
+            for hits in mw.route_hits.values():
+                for res in hits.values():
+                    res.resize(2)
+            obs.append({'status': 200, 'exc': None, 'after': snapshot(mw)})
+            continue
         before = snapshot(mw)
         q = 'format=json' if k in ('read', 'reset') else ''
         r = wsgi.get(app, path, method=method, query=q)
@@ -261,7 +275,7 @@ def run(rep, b, tier, seed, only_cases=None):
     rep.rule = ('reservoir: random add/resize sequences (cap 1..13, lengths up to %s, raw random ints biased to the '
                 'replacement boundary) replayed on Reservoir with fast_randint patched to the same values, state '
                 'compared after every op; stats: random request histories over a 12-route scenario application with '
-                'reads and resets, route_hits compared after every request and the JSON report compared with a '
+                'reads, resets and operator resizes of every per-route sample store to capacity 2 (stores then hold fewer samples than they counted), route_hits compared after every request and the JSON report compared with a '
                 'harness-kept counter. non-trivial = distinct cases that reach the replacement branch / contain a '
                 'growing resize after overflow / contain a reset or read' % ('80' if tier == 'quick' else '300'))
     rep.assumptions = ['fast_randint returns an integer in [start, stop] (its documented contract)',
@@ -315,6 +329,8 @@ def run(rep, b, tier, seed, only_cases=None):
                 states = sexp.loads(out)
                 ok = True
                 for k, rec, m in zip(c['ops'], o, marks):
+                    if m is None:
+                        continue
                     st = states[m]
                     want = ['ok', [[p, [[a, b2] for a, b2 in d]] for p, d in rec['after']]]
                     got = canon_model_state(st)
